@@ -757,12 +757,12 @@ impl<'a, W: Write> YamlSerializer<'a, W> {
 
     /// Write a folded block string body, wrapping to `folded_wrap_col` characters.
     /// Delegates to the standalone function in `wrapping` module.
-    fn write_folded_block(&mut self, s: &str, indent: usize) -> Result<()> {
+    fn write_folded_block(&mut self, s: &str, indent_cols: usize) -> Result<()> {
         crate::wrapping::write_folded_block(
             &mut self.out,
             s,
-            indent,
-            self.indent_step,
+            indent_cols,
+            1,
             self.folded_wrap_col,
         )?;
         self.at_line_start = true;
@@ -1144,15 +1144,20 @@ impl<'a, 'b, W: Write> Serializer for &'a mut YamlSerializer<'b, W> {
             // The indicator counts from the indentation of the parent node: the column of the
             // key (mapping value) or of the dash (sequence entry) this scalar belongs to; for
             // a top-level scalar it is the indentation itself.
-            let body_col = self.indent_step * body_base;
             let parent_col = if was_map_value {
                 self.out.key_col()
             } else {
                 self.out.dash_col()
             };
+            // The body has to be indented deeper than that column, whatever the indentation
+            // step (a key written inline after `- ` sits two columns right of the dash).
+            let body_col = match parent_col {
+                Some(col) => (self.indent_step * body_base).max(col + 1),
+                None => self.indent_step * body_base,
+            };
             let indent_n = match parent_col {
-                Some(col) if col < body_col => body_col - col,
-                _ => body_col,
+                Some(col) => body_col - col,
+                None => body_col,
             };
 
             // Check if we need an explicit indentation indicator.
@@ -1201,7 +1206,7 @@ impl<'a, 'b, W: Write> Serializer for &'a mut YamlSerializer<'b, W> {
                     // should produce a single empty content line (tests expect this for "\n").
                     // Precompute body indent string once for the entire block
                     let mut indent_buf: String = String::new();
-                    let spaces = self.indent_step * body_base;
+                    let spaces = body_col;
                     if spaces > 0 {
                         indent_buf.reserve(spaces);
                         for _ in 0..spaces {
@@ -1256,7 +1261,7 @@ impl<'a, 'b, W: Write> Serializer for &'a mut YamlSerializer<'b, W> {
                     // Note: Explicit FoldStr/FoldString wrappers historically used plain '>'
                     // regardless of trailing newline; keep that behavior for compatibility.
                     self.newline()?;
-                    self.write_folded_block(v, body_base)?;
+                    self.write_folded_block(v, body_col)?;
                 }
             }
             // An explicit FoldStr is always written with clip chomping (see above).
